@@ -486,8 +486,9 @@ def array_stages(rep, tcfg, what, sigprefix):
     rep.distinct.update(range(n))
     hist_stage(rep, sigprefix + "-edges", ["array-run"], "array", "ArrayTrace.tla", tcfg, files, "edge", what)
     rep.stages[sigprefix + "-edges"]["selected_of_distinct_histories"] = [n, total]
-    walks = [(256, "{19, 60, 117, 130}", 24 if quick else 300, 200 if quick else 500),
-             (512, "{30, 120, 245, 300}", 12 if quick else 200, 300 if quick else 700)]
+    light = quick and sigprefix != "c01"      # C05 shares these stages with C01: fewer walks in its quick tier
+    walks = [(256, "{19, 60, 117, 130}", (10 if light else 20) if quick else 300, 200 if quick else 500),
+             (512, "{30, 120, 245, 300}", (5 if light else 10) if quick else 200, 300 if quick else 700)]
     if not quick:
         walks += [(1024, "{40, 250, 501, 700}", 100, 900), (257, "{19, 61, 118, 131}", 100, 400)]
     for (T, sizes, num, depth) in walks:
